@@ -101,7 +101,8 @@ def run_job(prop, job, active_kf, seed, scratch_root, deadline=None):
     spec = dict(module=job['module'], func=job['func'], params=job.get('params', {}),
                 cpu_budget=job.get('budget', 60.0), per_path_timeout=job.get('per_path', 10.0),
                 active_kf=sorted(active_kf), validate_every=job.get('validate_every', 1),
-                max_paths=job.get('max_paths'), seed=seed, scratch=scratch,
+                max_paths=(int(os.environ['VERIF_SMOKE']) if os.environ.get('VERIF_SMOKE') else job.get('max_paths')),
+                seed=seed, scratch=scratch,
                 trace_functions=job.get('trace_functions', True))
     specf = os.path.join(scratch_root, safe + '.spec.json')
     resf = os.path.join(scratch_root, safe + '.res.json')
